@@ -561,9 +561,14 @@ class GroupBy:
             return
 
         if self._group_key_pointers is not None:
-            chunks = [
-                p[k] for p, k in zip(self._group_key_pointers, self._group_ikey.chunks)
-            ]
+            chunks = []
+            for p, k in zip(self._group_key_pointers, self._group_ikey.chunks):
+                k = np.asarray(k)
+                not_null = k >= 0
+                # keep the null code: p[-1] would alias the chunk's last label
+                global_codes = np.full(len(k), -1, dtype=np.int64)
+                global_codes[not_null] = p[k[not_null]]
+                chunks.append(global_codes)
             self._group_key_pointers = None
         elif keep_chunked:
             # no pointers to unify, but we want to keep chunked so do nothing
